@@ -16,7 +16,7 @@ warnings.filterwarnings("ignore")
 
 THEOREMS = [
     "Yaw.C12.meta_counts", "Yaw.C12.radius_contains", "Yaw.C12.radius_tight", "Yaw.C12.centres_aligned",
-    "Yaw.C12.missing_centre_rejected", "Yaw.C12.unchecked_pairing_misaligns", "Yaw.C12.guard_rejects",
+    "Yaw.C12.missing_centre_rejected", "Yaw.C12.centres_take_precedence", "Yaw.C12.unchecked_pairing_misaligns", "Yaw.C12.guard_rejects",
     "Yaw.C12.guard_rejects_zero_radius", "Yaw.C12.guard_any", "Yaw.C12.ids_guard", "Yaw.C12.glue_pinned",
 ]
 RULE = ("catalogs created in all three patch modes (given centres in random order incl. centres that attract no "
